@@ -328,9 +328,10 @@ def elem_match(cr, e):
                 m = wmatch(cr['tokens'], e)
                 return (not m), 'ne-wild:' + ('match' if m else 'nomatch')
             m = wmatch(cr['tokens'], e)
+            pre = 'ne-escape' if literal_of(cr['tokens']) != cr['operand'] else 'ne-text'
             if not m:
-                return True, 'ne-text:diff'
-            return False, ('ne-text:same' if wmatch(cr['tokens'], e, fold=False) else 'ne-text:case')
+                return True, pre + ':diff'
+            return False, (pre + ':same' if wmatch(cr['tokens'], e, fold=False) else pre + ':case')
         return e != cr['operand'], 'ne-%s:%s' % (ck, ek)
     if op == '=':
         if ck == 'text':
